@@ -99,7 +99,7 @@ func runIn(i int) {
 	defer os.Remove(p)
 	lg := logger("in", i)
 	start := time.Now()
-	buf := make([]byte, 65536)
+	buf := make([]byte, 1<<18)
 	out := bufio.NewWriter(os.Stdout)
 	for {
 		n, err := conn.Read(buf)
@@ -139,6 +139,7 @@ func runOut(i int) {
 			if err != nil {
 				continue // nobody listens on the in side: the message is dropped, as on a real MIDI cable
 			}
+			c.SetWriteBuffer(1 << 20)
 			conn = c
 		}
 		if _, err := conn.Write(b); err != nil {
